@@ -192,7 +192,7 @@ func readBison(text string) (*yFile, error) {
 	for i < len(toks) {
 		lhs := toks[i]
 		if i+1 >= len(toks) || toks[i+1].text != ":" {
-			return nil, fmt.Errorf("line %d: expected '<nonterminal> :', found %q", lhs.line, lhs.text)
+			return nil, fmt.Errorf("line %d: expected '<nonterminal> :' (found %q)", lhs.line, lhs.text)
 		}
 		i += 2
 		cur := yRule{lhs: lhs.text, line: lhs.line}
@@ -463,7 +463,11 @@ func c30Judge(c *fw.Ctx, p *genrun.Pkg, optDesc string) {
 	c.Eval(1)
 	got, err := readBison(text)
 	if err != nil {
-		c.Violate("unreadable/"+fw.Skeleton(stripLinePrefix(err.Error())), "the exported Bison file cannot be read: "+err.Error()+"\n"+optDesc, files)
+		what := stripLinePrefix(err.Error())
+		if i := strings.Index(what, " (found "); i >= 0 {
+			what = what[:i] // the offending text goes into the detail only
+		}
+		c.Violate("unreadable/"+fw.Skeleton(what), "the exported Bison file cannot be read: "+err.Error()+"\n"+optDesc, files)
 		return
 	}
 	if g.Parser == nil || g.Parser.Tables == nil {
